@@ -72,6 +72,11 @@ void Model::save(const std::string &path, bool with_stats) const {
     writer << kv.first;
     kv.second->save_inner(writer, with_stats);
   }
+
+  ofs.flush();
+  if (!ofs) {
+    PRIMITIV_THROW_ERROR("Could not write all data to file: " << path);
+  }
 }
 
 void Model::add(const std::string &name, Parameter &param) {
